@@ -204,6 +204,45 @@ theorem round_placed {cfg : Cfg N K} {ro fo} (hg : Good cfg fo) {nodes : List N}
     · rw [← em]; exact hm
     · rw [cleanF m k hum em] at hm; cases hm
 
+omit [DecidableEq K] in
+/-- When is a change of the list `Safe`?  For the nodes that keep running the invariant answers: their
+out-of-date copies sit at the current owner only.  So it is enough that (1) every running node keeps
+running, (2) a node that COMES BACK holds out-of-date copies only of keys the new routing assigns
+to it (e.g. it received them under the very same list before the change was rolled back), (3) where
+a running owner holds an out-of-date copy the owner does not change, (4) at most one started
+non-owner holds a shard. -/
+theorem safe_of_winv {w : World N K} (h : WInv w) (o f : K → N) (u : N → Bool)
+    (hstay : ∀ n, w.cfg.up n = true → u n = true)
+    (hbackR : ∀ n k v, u n = true → w.cfg.up n = false → w.st.recs n k = some v → w.ro k ≠ some v → n = o k)
+    (hownR : ∀ k v, u (w.cfg.owner k) = true → w.st.recs (w.cfg.owner k) k = some v → w.ro k ≠ some v →
+      o k = w.cfg.owner k)
+    (hbackF : ∀ n k c, u n = true → w.cfg.up n = false → w.st.files n k = some c → w.fo k ≠ some c → n = f k)
+    (hownF : ∀ k c, u (w.cfg.fowner k) = true → w.st.files (w.cfg.fowner k) k = some c → w.fo k ≠ some c →
+      f k = w.cfg.fowner k)
+    (hfc : ∀ n n' k, u n = true → u n' = true → n ≠ f k → n' ≠ f k →
+      (w.st.files n k).isSome → (w.st.files n' k).isSome → n = n') : Safe w o f u := by
+  refine ⟨?_, ?_, ?_, ?_, hfc⟩
+  · intro n k v hun hv hne
+    cases hw : w.cfg.up n with
+    | false => exact hbackR n k v hun hw hv hne
+    | true =>
+      by_cases e : n = w.cfg.owner k
+      · subst e; exact (hownR k v hun hv hne).symm
+      · exact absurd (h.r1 n k v hw e hv) hne
+  · intro k v hro
+    obtain ⟨n, hn, hv⟩ := h.r2 k v hro
+    exact ⟨n, hstay n hn, hv⟩
+  · intro n k c hun hc hne
+    cases hw : w.cfg.up n with
+    | false => exact hbackF n k c hun hw hc hne
+    | true =>
+      by_cases e : n = w.cfg.fowner k
+      · subst e; exact (hownF k c hun hc hne).symm
+      · exact absurd (h.f1 n k c hw e hc) hne
+  · intro k c hfo
+    obtain ⟨n, hn, hc⟩ := h.f2 k c hfo
+    exact ⟨n, hstay n hn, hc⟩
+
 /-- a synchronisation (any sequence of its events) continues a history -/
 theorem wreach_sync {w0 w : World N K} (hr : WReach w0 w) {s : St N K} (h : Reachable w.cfg w.st s) :
     WReach w0 { w with st := s } := by
